@@ -130,7 +130,8 @@ def encode_table(P):
         n = callee_name(tm) or ""
         if n.endswith("Vec::<T, A>::push") and len(tm["args"]) == 2 and op_place(tm["args"][1]) and b.local_ty(op_place(tm["args"][1])[0]) == "u8":
             pushes.append((bb, tm))
-    pushes.sort(key=lambda x: sum(1 for y in pushes if cfg.dominates(y[0], x[0])))
+    snap = list(pushes)
+    pushes = sorted(snap, key=lambda x: sum(1 for y in snap if cfg.dominates(y[0], x[0])))
     for octet, (bb, tm) in enumerate(pushes[:2], start=1):
         _collect_or_chain(P, b, T, cfg, tm["args"][1], bb, len(b.blocks[bb]["stmts"]), octet, tab)
     # OPT packing: the RR aggregate with rrtype RR_OPT: ttl expression
